@@ -7,7 +7,7 @@
    invariants evaluated inside real solver runs at every hook event. *)
 From SV Require Import Cxx Ops LinAlg RngGen Arnoldi.
 From mathcomp Require Import all_ssreflect all_algebra.
-From SV Require Import Krylov OpsF ArnoldiPf ArnoldiLoop.
+From SV Require Import Krylov OpsF ArnoldiPf ArnoldiLoop ArnoldiOrth.
 Set Implicit Arguments. Unset Strict Implicit. Unset Printing Implicit Defensive.
 Import GRing.Theory.
 Local Open Scope ring_scope.
@@ -129,3 +129,30 @@ Theorem C07_model_factorize_relation : forall (F : rcfType) (near0 eps l717 : F)
                      fk (OpsF F) F' = to_m, InvW Arows n m to_m F' & R2 Arows n to_m F' \/ dropped n F'].
 Proof. move=> F near0 eps l717 Arows n m from_k to_m Fc cnt np sA k0 kt kf iw r2 bt; exact: (@factorize_relation F near0 eps l717 Arows n m bt np sA from_k to_m Fc cnt (erefl _)). Qed.
 Print Assumptions C07_model_factorize_relation.
+
+(* ---- the COMPLETE Krylov invariant on the model, exact arithmetic.  Full k Fc (proofs/ArnoldiOrth.v) :=
+        InvW k Fc  /\  (R2 k Fc \/ dropped Fc)  /\  V_k' V_k = I (Orth)  /\  V_k' f = 0 (Fperp)  /\  beta = |f| (Bnorm)
+   i.e.  A V_k = V_k H_k + f e_k',  H_k upper Hessenberg,  orthonormal basis,  residual orthogonal to it.
+   Arnoldi::init establishes it for one column whenever the operator does not annihilate the start vector, *)
+Theorem C07_model_init_full_invariant : forall (F : rcfType) (near0 eps : F) (Arows : seq (seq F)) (n m : nat) (v0 : seq F) (Fc : fac (OpsF F)) (cnt : nat),
+  0 < near0 -> size Arows = n -> (0 < m)%N -> norm (OpsF F) (apply_op (OpsF F) Arows v0) != 0 ->
+  Arnoldi.init (OpsF F) near0 eps Arows n m v0 = @Done _ (Fc, cnt) -> Full Arows n m 1 Fc.
+Proof. move=> F near0 eps Arows n m v0 Fc cnt np sA m0 nz; exact: (@init_full F near0 eps Arows n m np sA v0 Fc cnt m0 nz). Qed.
+Print Assumptions C07_model_init_full_invariant.
+
+(* and Arnoldi::factorize_from(from_k, to_m) carries it from from_k to to_m columns, for every from_k < to_m <= m, every operator (symmetric or
+   not) and every run in which no step starts from a breakdown: classical Gram-Schmidt against an orthonormal basis is exact, so in exact
+   arithmetic the re-orthogonalisation loop makes no pass and never drops the residual, v_k = f / beta is a unit vector orthogonal to the basis
+   and the new residual is orthogonal to the extended basis.  With C07_restart_K / C07_restart_orth (the implicit restart keeps the invariant)
+   this is the whole invariant of C07 for breakdown-free histories; the breakdown branch (expand_basis) and floating point are covered by the
+   bit-exact tie and the invariant observer. *)
+Theorem C07_model_factorize_full_invariant : forall (F : rcfType) (near0 eps l717 : F) (Arows : seq (seq F)) (n m : nat) (from_k to_m : nat) (Fc : fac (OpsF F)) (cnt : nat),
+  0 < near0 -> 0 <= eps -> size Arows = n -> (0 < from_k)%N -> (from_k < to_m <= m)%N -> (from_k <= fk (OpsF F) Fc)%N ->
+  Full Arows n m from_k Fc ->
+  let bt := eps * Num.sqrt (of_Z (OpsF F) (BinInt.Z.of_nat n)) in
+  let Fz := {| fV := fV (OpsF F) Fc; fH := zero_from (OpsF F) m from_k (fH (OpsF F) Fc); ff := ff (OpsF F) Fc; fbeta := fbeta (OpsF F) Fc; fk := fk (OpsF F) Fc |} in
+  nb_run near0 eps l717 Arows n m bt (List.seq from_k (to_m - from_k)) (Fz, cnt) ->
+  exists F' cnt', [/\ arnoldi_factorize_from_k (OpsF F) near0 eps l717 Arows n m from_k to_m (Fc, cnt) = @Done _ (F', cnt'),
+                     fk (OpsF F) F' = to_m & Full Arows n m to_m F'].
+Proof. move=> F near0 eps l717 Arows n m from_k to_m Fc cnt np e0 sA k0 kt kf fu bt; exact: (@factorize_full F near0 eps l717 Arows n m bt np e0 sA from_k to_m Fc cnt (erefl _)). Qed.
+Print Assumptions C07_model_factorize_full_invariant.
